@@ -636,4 +636,103 @@ model and of the source: `nextIdx` of a sent telegram is the sender itself.  Con
 theorem sender_keeps_turn (n i : Nat) (hp : Bool) (hd : Header) (pdu : Bytes) :
     nextIdx n (.transmit i hp (.send hd pdu)) = i := rfl
 
+
+/-! ### Witness: three scripted applications, one token visit -/
+
+def holdingB (s : Station) : Bool :=
+  match s.st with
+  | .useToken .. | .awaitData .. => true
+  | _ => false
+
+theorem holding_of_b {s : Station} (h : holdingB s = true) : Holding s := by
+  unfold holdingB at h
+  cases hst : s.st <;> rw [hst] at h <;> simp at h
+  · exact .inl ⟨_, _, hst⟩
+  · exact .inr ⟨_, _, hst⟩
+
+/-- A station (TS 7) that has just received the token, turn at application 0 of three: application 0 has
+nothing to send, application 1 has one request for station 9 (and then nothing), application 2 nothing. -/
+def orderStation : Station :=
+  { (Station.new demoParams) with online := true, st := .useToken ⟨0, none⟩ false, lastBusActivity := some 0, endTokenHoldTime := 1000000 }
+def orderApps : Apps := [[], [.send (fdlStatusRequestHeader 9 7) []], []]
+def orderWorld : World := ⟨orderStation, orderApps, []⟩
+def orderCalls : List ApiCall := [.poll 1000 false [], .poll 100000 false []]
+def orderLog : List AppCall :=
+  [.transmit 0 false .decline, .transmit 1 false (.send (fdlStatusRequestHeader 9 7) []), .timeout 1 9,
+   .transmit 1 false .decline, .transmit 2 false .decline]
+
+theorem order_inv : Inv orderStation orderApps := by
+  refine ⟨by decide, by decide, TokenRing.new_ok 7 (by decide), (fun h => by cases h), ?_, ?_, ?_, ?_, ?_, ?_, (by simp [orderStation])⟩
+  · intro cur hc; simp [orderStation, Station.new, demoParams] at hc ⊢; omega
+  · intro a ha; simp [orderStation] at ha
+  · intro a ha; simp [orderStation] at ha
+  · intro _; decide
+  · intro a d h; simp [orderStation] at h
+  · intro sc hsc ans hans hd pdu he
+    simp [orderApps] at hsc
+    rcases hsc with rfl | rfl | rfl
+    · simp at hans
+    · simp at hans; subst hans; cases he; decide
+    · simp at hans
+
+set_option maxRecDepth 100000 in
+/-- The whole visit, evaluated: application 0 declines, application 1 sends, its time-out is delivered,
+application 1 is asked AGAIN (the sender keeps the turn) and declines, application 2 declines, and the
+turn is back at application 0 = `first_app`: the cycle is complete and the station passes on (here: sends
+the pending GAP poll first) — although application 0 was NOT asked again after the last sent telegram. -/
+theorem order_eval : (match orderWorld.runLog orderCalls with
+    | some (w, log) => (log, w.s.nextApp, w.s.st)
+    | none => ([], 99, .offline)) = (orderLog, 0, .awaitStatus 8) := by decide
+
+set_option maxRecDepth 100000 in
+theorem order_mid : (match orderWorld.stepLog (.poll 1000 false []) with
+    | some (w, _) => holdingB w.s
+    | none => false) = true := by decide
+
+theorem order_visit : VisitRun orderWorld orderCalls := by
+  refine ⟨.inl ⟨_, _, rfl⟩, (by intro h; cases h), ?_⟩
+  intro w1 l h
+  have hm := order_mid
+  rw [h] at hm
+  exact ⟨holding_of_b hm, (by intro h; cases h), fun _ _ _ => trivial⟩
+
+/-- Non-vacuity of `ask_order`: its hypotheses hold for the witness visit (a state satisfying the
+station invariant `order_inv`), the log is the five callbacks above, and the conclusions can be read
+off: e.g. the callback after the decline of application 0 goes to application 1, the callbacks after the
+request of application 1 (time-out, next ask) go to application 1. -/
+theorem order_witness : ∃ w' , orderWorld.runLog orderCalls = some (w', orderLog) ∧ VisitRun orderWorld orderCalls ∧
+    Inv orderWorld.s orderWorld.apps ∧ walk 3 0 orderLog = some 0 := by
+  have he := order_eval
+  cases hr : orderWorld.runLog orderCalls with
+  | none => rw [hr] at he; simp at he
+  | some x =>
+    obtain ⟨w', log⟩ := x
+    rw [hr] at he
+    simp only [Prod.mk.injEq] at he
+    refine ⟨w', by rw [he.1], order_visit, order_inv, by decide⟩
+
+example : ∀ r post pre, orderLog = pre ++ .transmit 0 false .decline :: r :: post → r.app = 1 := by
+  obtain ⟨w', hr, hv, -, -⟩ := order_witness
+  intro r post pre he
+  exact (ask_order orderCalls orderWorld w' orderLog hv hr).2.1 pre 0 false r post he
+
+/-- Against the phrasing "the visit ends only if every application was asked once SINCE THE LAST SENT
+TELEGRAM and all declined": in the witness visit the token hold ends (the station leaves `UseToken` for
+the GAP poll / token pass, the hold time being far from over) although application 0 was not asked
+after the telegram sent by application 1.  The true rule is per VISIT: `first_app` is remembered across
+sent telegrams, and the hold ends when the turn comes back to it (`cycle_ends_fair` below). -/
+theorem visit_end_not_since_last_send :
+    ∃ w' pre post hd pdu, orderWorld.runLog orderCalls = some (w', pre ++ .transmit 1 false (.send hd pdu) :: post) ∧
+      ¬ Holding w'.s ∧ (∀ hp ans, AppCall.transmit 0 hp ans ∉ post) ∧ (100000 : Int) < orderStation.endTokenHoldTime := by
+  have he := order_eval
+  cases hr : orderWorld.runLog orderCalls with
+  | none => rw [hr] at he; simp at he
+  | some x =>
+    obtain ⟨w', log⟩ := x
+    rw [hr] at he
+    simp only [Prod.mk.injEq] at he
+    refine ⟨w', [.transmit 0 false .decline], [.timeout 1 9, .transmit 1 false .decline, .transmit 2 false .decline],
+      _, _, by rw [he.1]; rfl, ?_, (by intro hp ans h; simp at h), by decide⟩
+    rintro (⟨d, fcd, h⟩ | ⟨a, d, h⟩) <;> rw [he.2.2] at h <;> cases h
+
 end PV.C15
